@@ -16,38 +16,49 @@ sys.dont_write_bytecode = True
 import check as check_mod  # noqa: E402
 
 
+def one(nm):
+    root = os.path.join(VERIF, "twins")
+    d = os.path.join(root, nm)
+    tmp = tempfile.mkdtemp(prefix="gcmverif_twinrun_")
+    lines = []
+    try:
+        shutil.copytree("/repo/gcmpy", os.path.join(tmp, "gcmpy"), ignore=shutil.ignore_patterns("__pycache__"))
+        r = subprocess.run(["git", "apply", "--unsafe-paths", "--directory", tmp, os.path.join(d, "patch.diff")], capture_output=True, text=True, cwd=tmp)
+        if r.returncode != 0:
+            return nm, False, [f"{nm:24s} patch does not apply to the current tree (skipped)"]
+        alarms, und = [], []
+        for p in check_mod.ALL:
+            buf = io.StringIO()
+            with contextlib.redirect_stdout(buf):
+                code, results = check_mod.run_property(p, tmp, "quick", write=False, quiet=True)
+            for x in results:
+                if x.status == "VIOLATED" and not x.known:
+                    alarms.append(f"{x.obligation} {x.function} ({x.where}): {x.reason[:200]}")
+                elif x.status == "UNDECIDED":
+                    und.append(f"{x.obligation} {x.function}: {x.reason[:120]}")
+        status = "FALSE-ALARM" if alarms else ("undecided" if und else "silent")
+        lines.append(f"{nm:24s} {status:12s} alarms={len(alarms)} undecided={len(und)}")
+        lines += ["    ALARM " + a for a in alarms] + ["    und   " + u for u in und]
+        return nm, bool(alarms), lines
+    finally:
+        shutil.rmtree(tmp, ignore_errors=True)
+
+
 def main():
+    from concurrent.futures import ProcessPoolExecutor
     root = os.path.join(VERIF, "twins")
     names = sys.argv[1:] or sorted(d for d in os.listdir(root) if os.path.isdir(os.path.join(root, d)))
     bad = 0
-    for nm in names:
-        d = os.path.join(root, nm)
-        tmp = tempfile.mkdtemp(prefix="gcmverif_twinrun_")
-        try:
-            shutil.copytree("/repo/gcmpy", os.path.join(tmp, "gcmpy"), ignore=shutil.ignore_patterns("__pycache__"))
-            r = subprocess.run(["git", "apply", "--unsafe-paths", "--directory", tmp, os.path.join(d, "patch.diff")], capture_output=True, text=True, cwd=tmp)
-            if r.returncode != 0:
-                print(f"{nm:24s} patch does not apply to the current tree (skipped)")
-                continue
-            alarms, und = [], []
-            for p in check_mod.ALL:
-                buf = io.StringIO()
-                with contextlib.redirect_stdout(buf):
-                    code, results = check_mod.run_property(p, tmp, "quick", write=False, quiet=True)
-                for x in results:
-                    if x.status == "VIOLATED" and not x.known:
-                        alarms.append(f"{x.obligation} {x.function} ({x.where}): {x.reason[:200]}")
-                    elif x.status == "UNDECIDED":
-                        und.append(f"{x.obligation} {x.function}: {x.reason[:120]}")
-            status = "FALSE-ALARM" if alarms else ("undecided" if und else "silent")
-            bad += bool(alarms)
-            print(f"{nm:24s} {status:12s} alarms={len(alarms)} undecided={len(und)}")
-            for a in alarms:
-                print("    ALARM " + a)
-            for u in und:
-                print("    und   " + u)
-        finally:
-            shutil.rmtree(tmp, ignore_errors=True)
+    tally = {"silent": 0, "undecided": 0, "FALSE-ALARM": 0}
+    with ProcessPoolExecutor(max_workers=min(16, os.cpu_count() or 4)) as ex:
+        for nm, alarm, lines in ex.map(one, names):
+            bad += alarm
+            for l in lines:
+                print(l)
+            for k in tally:
+                if lines and f" {k} " in lines[0]:
+                    tally[k] += 1
+    print(f"TOTAL {len(names)} twins: {tally['silent']} silent, {tally['undecided']} with undecided obligations, {tally['FALSE-ALARM']} accused")
     return 1 if bad else 0
 
 
